@@ -20,7 +20,7 @@ import (
 type C03Job struct {
 	Cfg      rig.Config `json:"cfg"`
 	Contents []string   `json:"contents"`
-	Patterns []int      `json:"patterns,omitempty"` // write patterns (0 single Write, 1 Write+Sync+Write, 2 WriteString x2, 3 WriteAt back-fill); default {0}
+	Patterns []int      `json:"patterns,omitempty"` // write patterns (0 single Write, 1 Write+Sync+Write, 2 WriteString x2, 3 WriteAt back-fill, 4 Write all + Seek to the middle + Stat + Write the rest again); default {0}
 	Codec    bool       `json:"codec,omitempty"`    // component level: non-regular codec parameters + tape writer padding
 }
 
